@@ -172,6 +172,22 @@ class CastChild(dimod.Sampler):
                                             vartype=ss.vartype, num_occurrences=rec.num_occurrences)
 
 
+class Recorder(dimod.Sampler):
+    """passes everything to the wrapped sampler and keeps the sample set it returned"""
+    parameters = None
+    properties = None
+
+    def __init__(self, inner):
+        self.inner = inner
+        self.parameters = dict(inner.parameters)
+        self.properties = dict(inner.properties)
+        self.last = None
+
+    def sample(self, bqm, **kwargs):
+        self.last = self.inner.sample(bqm, **kwargs)
+        return self.last
+
+
 def build_base(bd):
     lin = {dec_label(x): float(F(b)) for x, b in bd["lin"]}
     quad = {(dec_label(u), dec_label(v)): float(F(b)) for u, v, b in bd["quad"]}
@@ -342,7 +358,8 @@ def run_case(c):
         inner = CastChild(np.float64, head=0 if child == 'empty' else 1 + c["rowseed"] % 5)
     else:
         inner = CastChild(np.float32 if child == 'f32' else np.int64)
-    sampler = dimod.HigherOrderComposite(inner)
+    recorder = Recorder(inner)
+    sampler = dimod.HigherOrderComposite(recorder)
     api = c["api"]
     feats.update(api=api, keep=c["keep"], discard=c["discard"], child=child)
     nvars0 = len(dimod.BinaryPolynomial(raw, vt).variables)
@@ -421,7 +438,19 @@ def run_case(c):
     cvars = clist([cnat(T.idx(v)) for v in variables])
     coq = f"(CHoc {hp(T, [(list(k), b) for k, b in poly.items()])} {ccons} {cbool(keep)} {cvars} {crow})"
     feats["ncons"] = nprod
-    return {"coq": coq, "py_fail": py_fail, "features": feats, "nontrivial": nprod > 0 and len(rows) > 0,
+    extra = []
+    child = recorder.last
+    if child is not None and len(child) <= 96:
+        # the whole bookkeeping of polymorph_response: which rows are kept, in which order, with which columns
+        for v in child.variables:
+            T.idx(v)
+        crows_child = clist([clist([cq(int(x)) for x in r]) for r in child.record.sample])
+        cout = clist([f"({clist([cq(x) for x in vals])}, {cq(en)}, {cbool(flag)})" for vals, en, flag in rows])
+        extra.append(f"(CHocFull {hp(T, [(list(k), b) for k, b in poly.items()])} {ccons} {cbool(discard)} "
+                     f"{clist([cnat(T.idx(v)) for v in child.variables])} {cvars} {crows_child} {cout})")
+        feats["full"] = True
+    return {"coq": coq, "extra_coq": extra, "py_fail": py_fail, "features": feats,
+            "nontrivial": nprod > 0 and len(rows) > 0,
             "observed": {"variables": [str(v) for v in variables], "nrows": len(rows), "reduction": repr(red)}}
 
 
